@@ -20,24 +20,59 @@ macro_rules! __lazy {
     }};
 }
 
+#[cfg(not(koto_verif))]
 #[inline]
 pub(crate) fn borrow<T: ?Sized>(cell: &CellImpl<T>) -> BorrowImpl<'_, T> {
     parking_lot::RwLockReadGuard::map(cell.read(), |x| x)
 }
 
+// Verification twin of `borrow`: the blocking acquisition is expressed as a try-loop so that
+// a cooperative scheduler sees 'would block' instead of a parked OS thread.
+#[cfg(koto_verif)]
+#[inline]
+pub(crate) fn borrow<T: ?Sized>(cell: &CellImpl<T>) -> BorrowImpl<'_, T> {
+    let addr = cell.data_ptr() as *const () as usize;
+    verif_sched::point(verif_sched::READ, addr);
+    loop {
+        if let Some(g) = cell.try_read() {
+            return parking_lot::RwLockReadGuard::map(g, |x| x);
+        }
+        verif_sched::point(verif_sched::BLOCKED_READ, addr);
+    }
+}
+
 #[inline]
 pub(crate) fn try_borrow<T: ?Sized>(cell: &CellImpl<T>) -> Option<BorrowImpl<'_, T>> {
+    #[cfg(koto_verif)]
+    verif_sched::point(verif_sched::TRY_READ, cell.data_ptr() as *const () as usize);
     cell.try_read()
         .map(|g| parking_lot::RwLockReadGuard::map(g, |x| x))
 }
 
+#[cfg(not(koto_verif))]
 #[inline]
 pub(crate) fn borrow_mut<T: ?Sized>(cell: &CellImpl<T>) -> BorrowMutImpl<'_, T> {
     parking_lot::RwLockWriteGuard::map(cell.write(), |x| x)
 }
 
+// Verification twin of `borrow_mut`, see `borrow`.
+#[cfg(koto_verif)]
+#[inline]
+pub(crate) fn borrow_mut<T: ?Sized>(cell: &CellImpl<T>) -> BorrowMutImpl<'_, T> {
+    let addr = cell.data_ptr() as *const () as usize;
+    verif_sched::point(verif_sched::WRITE, addr);
+    loop {
+        if let Some(g) = cell.try_write() {
+            return parking_lot::RwLockWriteGuard::map(g, |x| x);
+        }
+        verif_sched::point(verif_sched::BLOCKED_WRITE, addr);
+    }
+}
+
 #[inline]
 pub(crate) fn try_borrow_mut<T: ?Sized>(cell: &CellImpl<T>) -> Option<BorrowMutImpl<'_, T>> {
+    #[cfg(koto_verif)]
+    verif_sched::point(verif_sched::TRY_WRITE, cell.data_ptr() as *const () as usize);
     cell.try_write()
         .map(|g| parking_lot::RwLockWriteGuard::map(g, |x| x))
 }
@@ -64,4 +99,49 @@ where
     U: ?Sized,
 {
     BorrowMutImpl::try_map(borrowed, f)
+}
+
+/// Verification-only scheduling hook: a process-global callback that is invoked before every
+/// lock acquisition (and whenever a blocking acquisition would have to wait).
+///
+/// With no callback installed the behaviour is that of the unhooked build, with the blocking
+/// acquisitions degenerating to try + yield loops.
+#[cfg(koto_verif)]
+pub mod verif_sched {
+    use std::sync::atomic::{AtomicUsize, Ordering};
+
+    /// About to acquire a read lock (blocking variant)
+    pub const READ: u8 = 0;
+    /// About to acquire a write lock (blocking variant)
+    pub const WRITE: u8 = 1;
+    /// About to try to acquire a read lock
+    pub const TRY_READ: u8 = 2;
+    /// About to try to acquire a write lock
+    pub const TRY_WRITE: u8 = 3;
+    /// A blocking read acquisition found the lock held by a writer
+    pub const BLOCKED_READ: u8 = 4;
+    /// A blocking write acquisition found the lock held
+    pub const BLOCKED_WRITE: u8 = 5;
+
+    /// The callback type: `(kind, address of the protected data)`
+    pub type Hook = fn(u8, usize);
+
+    static HOOK: AtomicUsize = AtomicUsize::new(0);
+
+    /// Installs (or removes) the process-global scheduling callback
+    pub fn set_hook(hook: Option<Hook>) {
+        HOOK.store(hook.map_or(0, |f| f as usize), Ordering::SeqCst);
+    }
+
+    #[inline]
+    pub(crate) fn point(kind: u8, addr: usize) {
+        let hook = HOOK.load(Ordering::SeqCst);
+        if hook != 0 {
+            // Safety: only ever stored from a valid `Hook` in `set_hook`
+            let hook: Hook = unsafe { std::mem::transmute::<usize, Hook>(hook) };
+            hook(kind, addr);
+        } else if kind >= BLOCKED_READ {
+            std::thread::yield_now();
+        }
+    }
 }
